@@ -346,6 +346,8 @@ Fixpoint tscan (skip : bool) (inside : bool) (acc : gbytes) (s : gbytes) : optio
 
 Definition parse_t_c (text : gbytes) : option tmpl_c := tscan false false [] text.
 
+Definition no_value : gbytes := [60;110;111;32;118;97;108;117;101;62]%N.   (* "<no value>" *)
+
 Fixpoint exec_t_c (t : tmpl_c) (v : vars_c) : option gbytes :=
   match t with
   | [] => Some []
@@ -354,7 +356,10 @@ Fixpoint exec_t_c (t : tmpl_c) (v : vars_c) : option gbytes :=
       match v, exec_t_c r v with Some (tok, _), Some x => Some (tok ++ x) | _, _ => None end
   | CVar VId :: r =>
       match v, exec_t_c r v with Some (_, id), Some x => Some (id ++ x) | _, _ => None end
-  | CVar VOther :: _ => None
+  | CVar VOther :: r =>
+      (* a path that names nothing in the variables (a step that has not run, a key that does not exist):
+         the variables are maps, text/template prints "<no value>" for it — it is not an error *)
+      match exec_t_c r v with Some x => Some (no_value ++ x) | None => None end
   end.
 
 (* ---------- replaying a grpc/json case ---------- *)
